@@ -4,4 +4,5 @@ CONF = {
     "C15": dict(pkg="props/c15", quick=dict(checks=3000, shards=8, timeout=600), thorough=dict(checks=12000, shards=16, timeout=3600)),
     "C03": dict(pkg="props/c03", quick=dict(checks=1500, shards=8, timeout=600), thorough=dict(checks=40000, shards=16, timeout=3600)),
     "C05": dict(pkg="props/c05", quick=dict(checks=2000, shards=8, timeout=600), thorough=dict(checks=40000, shards=16, timeout=3600)),
+    "C07": dict(pkg="props/c07", quick=dict(checks=2500, shards=8, timeout=600), thorough=dict(checks=60000, shards=16, timeout=3600)),
 }
